@@ -4,7 +4,7 @@ from harness.known import replay_known  # noqa: F401
 
 from univers import versions as V
 
-MODULES = ["Univers.Props.C11"]
+MODULES = ["Univers.Props.C11", "Univers.Scheme.TablesThm"]
 LEVEL = "proof"
 RULE = ("per version class: strings generated from the scheme's documented grammar (valid by construction), respellings "
         "(whitespace, leading v, zero padding …) and structure-aware mutations; the real constructor / str against the Lean "
